@@ -553,3 +553,18 @@ def conclude(ctx, level, out):
         print('OK property=%s tier=%s evaluations=%d obligations=%s wall=%.1fs' % (
             pid, ctx.tier, out.evaluations, cov.get('obligations'), ctx.elapsed()))
     return 1 if violations else 0
+
+
+def merge_proofs(statuses):
+    """Combine the proof_status of several (family, property file) pairs into one status dict."""
+    st = {'family': '+'.join(s['family'] for s in statuses), 'propfile': '+'.join(s['propfile'] for s in statuses),
+          'ok': all(s.get('ok') for s in statuses), 'theorems': [], 'assumptions': {}, 'forbidden': [], 'broken': [],
+          'log': ''}
+    for s in statuses:
+        st['theorems'] += ['%s.%s' % (s['family'], t) for t in s.get('theorems', [])]
+        for k, v in (s.get('assumptions') or {}).items():
+            st['assumptions']['%s.%s' % (s['family'], k)] = v
+        st['forbidden'] += s.get('forbidden', [])
+        st['broken'] += s.get('broken', [])
+        st['log'] += (s.get('log') or '')[-1500:]
+    return st
